@@ -218,7 +218,8 @@ impl crate::Polynom<[Self; 4]> for P16E1 {}
 #[cfg(any(feature = "rand", test))]
 impl rand::distributions::Distribution<P16E1> for rand::distributions::Standard {
     fn sample<R: rand::Rng + ?Sized>(&self, rng: &mut R) -> P16E1 {
-        P16E1::sub_one(rng.gen_range(0_u32..0x_4_0000))
+        // the 18-bit fractions from 0x_3_fff0 up round to exactly 1.0
+        P16E1::sub_one(rng.gen_range(0_u32..0x_3_fff0))
         /*let s = rng.gen_range(0_u16, 0x_1000) | 0x4000;
         let s2 = rng.gen_range(0_u16, 4);
         let b = (P16E1::from_bits(s) - P16E1::ONE).to_bits();
